@@ -33,12 +33,88 @@ def reachable_transports(conn):
     return out
 
 
+class H2Script:
+    """Peer-initiated HTTP/2 events offered to the explorer (manual response mode) with their budgets."""
+
+    def __init__(self, topo, cfg):
+        self.topo = topo
+        self.frag = cfg.get("frag", 1)
+        self.goaway = list(cfg.get("goaway", []))
+        self.goaway_budget = 1 if self.goaway else 0
+        self.rst = cfg.get("rst", 0)
+        self.settings = list(cfg.get("settings", []))
+        self.ping = cfg.get("ping", 0)
+        self.wu = list(cfg.get("wu", []))          # [(target "conn"|"stream", increment)]
+        self.wu_budget = cfg.get("wu_budget", 0)
+        self.half = {}
+
+    def _mc_state(self):
+        return ("h2script", self.goaway_budget, self.rst, tuple(self.settings), self.ping, self.wu_budget, sorted(self.half.items()))
+
+    def events(self):
+        out = []
+        for ci, conn in enumerate(self.topo.all_h2_conns()):
+            if conn.tr.closed or conn.tr.peer_eof:
+                continue
+            for sid in conn.order:
+                s = conn.streams[sid]
+                tag = f"{ci}.{sid}"
+                refused = conn.goaway_sent is not None and sid > conn.goaway_sent[0]
+                if s.end_stream and not s.responded and not s.closed and not refused:
+                    out.append((f"hdr{tag}", lambda conn=conn, s=s: conn.send_headers(s.id, [(b":status", b"200"), (b"x-echo", s.token or b"?")])))
+                elif s.responded and not s.resp_sent_end:
+                    body = conn.server.body_for(s.token)
+                    if self.frag == 2 and (ci, sid) not in self.half:
+                        def first(conn=conn, s=s, body=body, ci=ci, sid=sid):
+                            self.half[(ci, sid)] = 1
+                            conn.send_data(s.id, body[: len(body) // 2], end_stream=False)
+                        out.append((f"data{tag}", first))
+                    else:
+                        rest = body[len(body) // 2:] if self.frag == 2 else body
+                        out.append((f"end{tag}", lambda conn=conn, s=s, rest=rest: conn.send_data(s.id, rest, end_stream=True)))
+                if self.rst > 0 and s.headers is not None and not s.closed and not s.resp_sent_end:
+                    def rst(conn=conn, s=s):
+                        self.rst -= 1
+                        conn.send_rst(s.id)
+                    out.append((f"rst{tag}", rst))
+                if self.wu_budget > 0 and s.headers is not None and not s.end_stream and not s.closed:
+                    for tgt, inc in self.wu:
+                        def wu(conn=conn, s=s, tgt=tgt, inc=inc):
+                            self.wu_budget -= 1
+                            conn.send_window_update(0 if tgt == "conn" else s.id, inc)
+                        out.append((f"wu-{tgt}+{inc}@{tag}", wu))
+            if conn.goaway_sent is not None:
+                accepted_open = [x for x in conn.streams.values() if x.id <= conn.goaway_sent[0] and not (x.resp_sent_end or x.closed)]
+                if not accepted_open:
+                    out.append((f"fin@{ci}", lambda conn=conn: conn.tr.shutdown()))
+            if self.goaway_budget > 0 and conn.got_preface:
+                for last in self.goaway:
+                    def ga(conn=conn, last=last):
+                        self.goaway_budget -= 1
+                        conn.send_goaway(last)
+                    out.append((f"goaway{last}@{ci}", ga))
+            for k in list(self.settings):
+                def st(conn=conn, k=k):
+                    self.settings.remove(k)
+                    conn.send_settings({3: k})
+                if conn.got_preface:
+                    out.append((f"settings{k}@{ci}", st))
+            if self.ping > 0 and conn.got_preface:
+                def pg(conn=conn):
+                    self.ping -= 1
+                    conn.send_ping()
+                out.append((f"ping@{ci}", pg))
+        return out
+
+
 class ConcHarness:
     """callers: list of "kind:origin[:opt...]" with kind in req | post | hold | early
        options: pt=<pool timeout>, v (may be cancelled), late (arrives by an environment event)"""
 
     def __init__(self, ct, callers, max_connections=1, max_keepalive=None, faults=0, cancels=0, styles=("scope",),
-                 early=True, framing="cl", h2cfg=None, horizon=600, keepalive_expiry=None, fault_set="one"):
+                 early=True, framing="cl", h2cfg=None, horizon=600, keepalive_expiry=None, fault_set="one", h2script=None, probe=True):
+        self.h2script = h2script
+        self.probe = probe
         self.ct = ct
         self.callers = callers
         self.max_connections = max_connections
@@ -55,11 +131,16 @@ class ConcHarness:
 
     def run(self, chooser) -> Execution:
         ct = self.ct
-        topo = scen.Topology(scen.CONN_TYPES[ct], framing=self.framing, h2cfg=self.h2cfg)
+        h2cfg = dict(self.h2cfg)
+        if self.h2script is not None:
+            h2cfg.setdefault("respond", "manual")
+        topo = scen.Topology(scen.CONN_TYPES[ct], framing=self.framing, h2cfg=h2cfg)
         kinds = None
         if self.fault_set == "one":
             kinds = {"connect": ["ConnectError"], "start_tls": ["ConnectError"], "read": ["ReadError"], "write": ["WriteError"]}
         results: dict = {}
+        results_warm: dict = {}
+        self._results_warm = results_warm
         times: dict = {}
         self._times = times
         w = AWorld(chooser, topo.router, faults=self.faults, cancels=self.cancels, cancel_styles=self.styles, early=self.early,
@@ -67,6 +148,10 @@ class ConcHarness:
         pool = scen.make_pool(ct, w.backend, "async", max_connections=self.max_connections,
                               max_keepalive_connections=self.max_keepalive, keepalive_expiry=self.keepalive_expiry)
         w.roots.append(pool)
+        if self.h2script is not None:
+            script = H2Script(topo, self.h2script)
+            w.roots.append(script)
+            w.server_events = script.events
         ever_pooled: list = []
         c04 = {"max_list": 0, "max_open": 0}
         N = self.max_connections
@@ -108,6 +193,7 @@ class ConcHarness:
         w.monitors.append(mon)
 
         specs = []
+        warm = []
         for i, cs in enumerate(self.callers):
             parts = cs.split(":")
             kind, origin, opts = parts[0], parts[1], parts[2:]
@@ -147,10 +233,35 @@ class ConcHarness:
                         return (r.status, None)
                     raise ValueError(kind)
                 return prog
-            w.add_caller(name, mk(), cancellable=("v" in opts), arrive="event" if "late" in opts else "start")
+            if "w" in opts:
+                warm.append((name, mk()))
+            else:
+                w.add_caller(name, mk(), cancellable=("v" in opts), arrive="event" if "late" in opts else "start")
 
         ex = Execution()
         try:
+            # warm-up callers run to completion first, with default environment answers and no choices
+            if warm:
+                w.loop.install()
+                f0, c0_ = w.env.faults, w.cancels
+                w.env.faults, w.cancels = 0, 0
+                se, w.server_events = w.server_events, None
+                for o_ in topo.origins.values():
+                    if hasattr(o_, "cfg"):
+                        o_.cfg["respond"] = "auto"
+                saved_resp = topo.h2cfg.get("respond")
+                topo.h2cfg["respond"] = "auto"
+                for name, fn in warm:
+                    r_ = w.drain(fn)
+                    results_warm[name] = r_
+                for o_ in topo.origins.values():
+                    if hasattr(o_, "cfg") and self.h2script is not None:
+                        o_.cfg["respond"] = "manual"
+                if saved_resp is None:
+                    topo.h2cfg.pop("respond", None)
+                else:
+                    topo.h2cfg["respond"] = saved_resp
+                w.env.faults, w.cancels, w.server_events = f0, c0_, se
             w.run()
             post = {}
             if w.deadlock is None:
@@ -162,7 +273,7 @@ class ConcHarness:
                 async def probe():
                     held, res = [], []
                     try:
-                        for i in range(N):
+                        for i in range(N if self.probe else 0):
                             cm = pool.stream("GET", scen.url_for(ct, host=f"p{i}.example", token=f"probe{i}"), extensions={"timeout": {"pool": 0}})
                             try:
                                 r = await cm.__aenter__()
@@ -178,6 +289,11 @@ class ConcHarness:
                 saved_f, saved_c = w.env.faults, w.cancels
                 w.env.faults = 0
                 w.cancels = 0
+                w.server_events = None
+                for o in topo.origins.values():
+                    if hasattr(o, "cfg"):
+                        o.cfg["respond"] = "auto"
+                topo.h2cfg["respond"] = "auto"
                 post["probe"] = w.drain(probe)
                 post["open_end"] = [repr(t) for t in w.net.open_transports() if not getattr(t, "backend_cleaned", False)]
             self.judge(ex, w, topo, pool, specs, post, c04)
@@ -188,6 +304,7 @@ class ConcHarness:
     def judge(self, ex, w, topo, pool, specs, post, c04):
         ex.notes["unmergeable"] = sorted(w.unmergeable)
         inj = w.env.injected
+        peer_events = [e for e in w.events_log if e.startswith(("srv:goaway", "srv:rst", "srv:fin"))]
         canc = [c for c in w.callers if c["cancel_delivered"] is not None]
         ex.nontrivial = bool(inj or canc or any(not e.startswith(("run", "arrive")) and "|" not in e for e in w.events_log[:0])) or len(set(w.events_log)) > 2
         ex.trace = [{"events": w.events_log[-80:]}, {"ledger": [op.rec() for op in w.net.ledger][-60:]}]
@@ -226,16 +343,20 @@ class ConcHarness:
             ex.violations.append(Violation(f"{prop}.{kind}", f"{msg} | {desc}", dict(base, kind=kind, **extra)))
 
         results = {c["name"]: c["result"] for c in w.callers}
-        if w.deadlock is not None:
-            kind, info = w.deadlock
-            viol("C07", kind, f"callers blocked forever: {info}; pool={pool!r} {pool.connections}",
-                 blocked_at=[b[1] for b in info] if isinstance(info, list) else None)
-            ex.outcome = f"{kind}:{sorted((k, (v[0] if v else None)) for k, v in results.items())}"
-            return
+        for (name, kind, tok, opts) in specs:
+            results.setdefault(name, None)
         # ---- per caller: C01 token equality, C15 documented exceptions
         for (name, kind, tok, opts) in specs:
+            if "w" in opts:
+                r = self._results_warm.get(name)
+                if r is None or r[0] != "ok" or r[1] != (200, b"<" + tok.encode() + b">"):
+                    viol("C01", "warm-up", f"warm-up caller {name} got {r}")
+                results[name] = ("ok", None)
+                continue
             r = results[name]
             c = next(c for c in w.callers if c["name"] == name)
+            if r is None and w.deadlock is not None:
+                continue        # still blocked: judged by the deadlock verdict below
             if r is None:
                 if c["task"].cancelled():
                     r = ("cancelled-native", None)
@@ -252,7 +373,7 @@ class ConcHarness:
                 e = r[1]
                 if not documented_exception(e):
                     viol("C15", "undocumented-exception", f"caller {name}: {exc_class(e)}: {e}", leaked=exc_class(e))
-                elif not inj and not canc and not isinstance(e, httpcore.PoolTimeout):
+                elif not inj and not canc and not peer_events and not isinstance(e, httpcore.PoolTimeout):
                     viol("C08", "collateral-failure", f"caller {name} failed with {exc_class(e)}: {e} although nothing was injected")
                 elif isinstance(e, httpcore.PoolTimeout) and not any(o.startswith("pt=") for o in opts):
                     viol("C16", "pool-timeout-without-timeout", f"caller {name} got PoolTimeout without a pool timeout")
@@ -261,14 +382,38 @@ class ConcHarness:
                     t0, t1 = self._times[name]
                     if abs((t1 - t0) - pt) > 1e-9:
                         viol("C16", "pool-timeout-instant", f"caller {name} raised PoolTimeout after {t1 - t0}s in the queue, pool timeout is {pt}s")
+        if w.deadlock is not None:
+            kind, info = w.deadlock
+            # root-cause fact for the known SETTINGS wedge: a caller is blocked inside _receive_remote_settings_change
+            base["settings_lowered"] = isinstance(info, list) and any("_receive_remote_settings_change" in b[1] for b in info)
+            viol("C07", kind, f"callers blocked forever: {info}; pool={pool!r} {pool.connections}",
+                 blocked_at=[b[1] for b in info] if isinstance(info, list) else None)
+            ex.outcome = f"{kind}:{sorted((k, (v[0] if v else None)) for k, v in results.items())}"
+            return
         for c in topo.all_h1_conns():
             if c.reuse_violations:
                 viol("C01", "reuse", f"{c.reuse_violations[:2]}")
             if c.parser.errors:
                 viol("C03", "h1-peer-complaint", f"{c.parser.errors[:2]}")
         for c in topo.all_h2_conns():
-            if c.violations:
-                viol("C03", "h2-peer-complaint", f"{c.violations[:2]}")
+            for msg in c.violations[:3]:
+                if "GOAWAY" in msg:
+                    viol("C14", "new-stream-after-goaway", msg)
+                elif "concurrent" in msg or "limit" in msg:
+                    viol("C12", "stream-limit", msg)
+                elif "window" in msg or "MAX_FRAME_SIZE" in msg:
+                    viol("C13", "flow-control", msg)
+                else:
+                    viol("C03", "h2-peer-complaint", msg)
+        # ---- C12: open streams by the peer's books at every new stream vs the limit the client had read
+        for c in topo.all_h2_conns():
+            for sid, nopen, lim in c.open_at_headers:
+                eff = 1 if lim == "unset" else min(lim if lim is not None else 100, 100)
+                if nopen > eff:
+                    early_closed = [x.id for x in c.streams.values() if not x.closed and x.id != sid]
+                    viol("C12", "stream-limit", f"stream {sid} opened as number {nopen} while the limit the client had read is {lim} (httpcore's own cap 100, 1 before SETTINGS); "
+                         f"still open by the server's books: {early_closed}", limit=eff, abandoned=any(k == "early" for (_n, k, _t, _o) in specs))
+                    break
         # ---- C04
         if "list" in c04:
             viol("C04", "pool-list-overshoot", c04["list"])
@@ -298,9 +443,16 @@ class ConcHarness:
         if post.get("open_end"):
             viol("C06", "open-after-pool-close", f"streams still open after pool.aclose(): {post['open_end']}")
         # ---- C14
+        h2conns = {c.tr.id: c for c in topo.all_h2_conns()}
         for tok, sightings in topo.seen_tokens().items():
             if tok and len(sightings) > 1:
-                viol("C14", "request-sent-twice", f"token {tok!r} seen {len(sightings)} times: {sightings}")
+                allowed = False
+                if len(sightings) == 2 and len(sightings[0]) == 3 and sightings[0][1] != sightings[1][1]:
+                    first = h2conns.get(sightings[0][1])
+                    if first is not None and first.goaway_sent is not None and sightings[0][2] > first.goaway_sent[0]:
+                        allowed = True      # refused by GOAWAY: one transparent re-send on another connection
+                if not allowed:
+                    viol("C14", "request-sent-twice", f"token {tok!r} seen {len(sightings)} times: {sightings}")
         if w.loop.unhandled:
             viol("C15", "loop-exception", f"event loop exception handler called: {w.loop.unhandled[:2]}")
         ex.outcome = json.dumps({"r": sorted((k, v[0] if v[0] != "exc" else "exc:" + exc_class(v[1])) for k, v in results.items()),
@@ -310,26 +462,40 @@ class ConcHarness:
 # ---------------------------------------------------------------------------------- scenario matrices
 
 
+_PROBE = [True]
+
+
 def S(ct, callers, **kw):
+    if not _PROBE[0]:
+        kw.setdefault("probe", False)
     return make_spec(MOD, "ConcHarness", ct=ct, callers=callers, **kw)
 
 
 def scenarios(pid, tier):
     """Scenario matrix per property (overlapping on purpose: every oracle runs on every scenario)."""
     out = []
+    # the behavioural capacity probe (fresh requests to new origins after the callers) is C05/C06's oracle;
+    # the other properties' scenarios just close the pool
+    _PROBE[0] = pid in ("C05", "C06")
     h1 = ["h11", "h11tls", "fwd", "tunnel", "socks"]
     h2 = ["h2pk", "h2alpn"]
     quick = tier == "quick"
     if pid in ("C01", "C04", "C07"):
         # all event orders, no faults: 2-3 callers, same/different origins
         for ct in (["h11", "h2alpn", "h2exp11", "fwd", "tunnel"] if quick else list(scen.CONN_TYPES)):
-            out.append(S(ct, ["req:a", "req:a"], max_connections=1))
-            out.append(S(ct, ["req:a", "req:b"], max_connections=1))
-            out.append(S(ct, ["hold:a", "req:a", "req:b"], max_connections=2))
-            out.append(S(ct, ["early:a", "req:a", "req:b:late"], max_connections=1))
+            # a cold HTTP/2 connection spends ~100 loop iterations acquiring its stream semaphore; delivering other
+            # completions "early" at each of them multiplies the space by 100 without reaching anything new, so early
+            # delivery is explored on HTTP/1.1 types and on warm HTTP/2 connections (scenarios with ":w" callers)
+            e = not (scen.CONN_TYPES[ct]["proto"] == "h2")
+            out.append(S(ct, ["req:a", "req:a"], max_connections=1, early=e))
+            out.append(S(ct, ["req:a", "req:b"], max_connections=1, early=e))
+            out.append(S(ct, ["hold:a", "req:a", "req:b"], max_connections=2, early=e))
+            out.append(S(ct, ["early:a", "req:a", "req:b:late"], max_connections=1, early=e))
+            if scen.CONN_TYPES[ct]["proto"] == "h2":
+                out.append(S(ct, ["req:a:w", "hold:a", "req:a", "req:b"], max_connections=2, early=True))
             if not quick:
-                out.append(S(ct, ["req:a", "req:b", "req:c"], max_connections=2))
-                out.append(S(ct, ["hold:a", "req:b", "req:a:late", "req:b:late"], max_connections=2))
+                out.append(S(ct, ["req:a", "req:b", "req:c"], max_connections=2, early=e))
+                out.append(S(ct, ["hold:a", "req:b", "req:a:late", "req:b:late"], max_connections=2, early=e))
         for fr in (["chunked", "close", "connclose", "http10", "interim"] if pid == "C01" else ["connclose"]):
             out.append(S("h11", ["req:a", "req:a", "req:b"], max_connections=1, framing=fr))
             out.append(S("h11", ["early:a", "req:a"], max_connections=1, framing=fr))
@@ -339,6 +505,17 @@ def scenarios(pid, tier):
         for ct in (["h11", "h2alpn"] if quick else ["h11", "h11tls", "h2alpn", "h2exp11", "fwd", "tunnel", "socks"]):
             out.append(S(ct, ["req:a:v", "req:a"], max_connections=1, cancels=1, styles=["scope", "native"]))
             out.append(S(ct, ["req:a", "req:b"], max_connections=1, faults=1))
+        if pid == "C01":
+            # HTTP/2 multiplexing with the server interleaving HEADERS/DATA of different streams in every order,
+            # on one connection and on two connections whose stream ids coincide
+            for ct in (["h2pk"] if quick else ["h2pk", "h2alpn"]):
+                out.append(S(ct, ["req:a:w", "req:a", "req:a"], max_connections=1, h2script={"frag": 2}, early=False))
+                out.append(S(ct, ["req:a:w", "req:b:w", "req:a", "req:b"], max_connections=2, h2script={"frag": 1}, early=False))
+                if not quick:
+                    out.append(S(ct, ["req:a", "req:b"], max_connections=2, h2script={"frag": 2}, early=False))
+                if not quick:
+                    out.append(S(ct, ["req:a:w", "req:a", "req:a", "req:a"], max_connections=1, h2script={"frag": 1}, early=False))
+                    out.append(S(ct, ["req:a:w", "early:a", "req:a"], max_connections=1, h2script={"frag": 2}, early=False))
         if pid == "C07":
             out.append(S("h11", ["hold:a", "req:b:pt=5", "req:b"], max_connections=1))
             out.append(S("h2exp11", ["req:a", "req:a", "req:a"], max_connections=2))
@@ -360,10 +537,51 @@ def scenarios(pid, tier):
             out.append(S(ct, ["req:a:pt=0"], max_connections=1))
             out.append(S(ct, ["hold:a", "req:a:pt=0"], max_connections=1))
             out.append(S(ct, ["hold:a", "req:b:pt=5", "req:a:pt=3"], max_connections=2))
+    if pid == "C12":
+        W = "req:a:w"
+        base = ["h2pk"] if quick else ["h2pk", "h2alpn", "tunnel-h2"]
+        for ct in base:
+            # frame interleavings: HEADERS / DATA / END_STREAM of concurrent streams in every order
+            out.append(S(ct, [W, "req:a", "req:a"], max_connections=1, h2script={"frag": 2}, early=False))
+            out.append(S(ct, [W, "req:a", "req:a", "req:a"], max_connections=1, h2script={"frag": 1}, early=False))
+            # limit changes at any time: lowering below the number in flight, raising
+            out.append(S(ct, [W, "req:a", "req:a"], max_connections=1, h2cfg={"max_streams": 2}, h2script={"settings": [1]}, early=False))
+            out.append(S(ct, [W, "req:a", "req:a", "req:a"], max_connections=1, h2cfg={"max_streams": 1}, h2script={"settings": [3]}, early=False))
+            out.append(S(ct, [W, "req:a", "req:a"], max_connections=1, h2cfg={"max_streams": 2}, h2script={"settings": [1, 2]}, early=False))
+            if not quick:
+                out.append(S(ct, [W, "req:a", "req:a", "req:a"], max_connections=1, h2cfg={"max_streams": 3}, h2script={"settings": [1]}, early=False))
+                out.append(S(ct, [W, "req:a", "req:a", "req:a"], max_connections=1, h2cfg={"max_streams": 3}, h2script={"settings": [2]}, early=False))
+            # resets and abandonment of individual streams
+            out.append(S(ct, [W, "req:a", "req:a"] + ([] if quick else ["req:a"]), max_connections=1, h2cfg={"max_streams": 2}, h2script={"rst": 1}, early=False))
+            out.append(S(ct, [W, "early:a", "req:a", "req:a"], max_connections=1, h2cfg={"max_streams": 2}, h2script={}, early=False))
+            out.append(S(ct, [W, "early:a", "req:a"], max_connections=1, h2cfg={"max_streams": 1}, h2script={}, early=False))
+            # before the first SETTINGS arrive: one stream only
+            out.append(S(ct, ["req:a", "req:a", "req:a"], max_connections=1, h2cfg={"max_streams": None, "auto_settings": False}, h2script={"settings": [2]}, early=False))
+            out.append(S(ct, [W, "req:a", "req:a"], max_connections=1, h2script={"ping": 1, "frag": 2}, early=False))
+            if not quick:
+                out.append(S(ct, [W, "req:a", "req:a", "req:a"], max_connections=1, h2script={"frag": 2}, early=False))
+                out.append(S(ct, [W, "req:a", "req:a", "req:a", "req:a"], max_connections=1, h2cfg={"max_streams": 3}, h2script={"settings": [1], "rst": 1}, early=False))
+                out.append(S(ct, [W, "req:a", "req:a"], max_connections=1, h2script={"frag": 2}, early=True))
+    if pid == "C15":
+        # peer-initiated HTTP/2 events against two streams (GOAWAY contradicting an answered stream, RST_STREAM)
+        out.append(S("h2pk", ["req:a", "req:a"], max_connections=2, h2script={"goaway": [1, 3], "rst": 1}, early=False))
+        out.append(S("h2pk", ["post:a", "req:a"], max_connections=2, faults=1, fault_set="all"))
+        out.append(S("h2alpn", ["req:a:w", "post:a", "req:a"], max_connections=2, faults=1, fault_set="all", early=False))
     if pid == "C14":
         for ct in ["h11", "h2alpn", "h2exp11", "h2pk"]:
             out.append(S(ct, ["post:a", "req:a"], max_connections=2, faults=1, fault_set="all"))
             out.append(S(ct, ["req:a", "req:a", "req:a"], max_connections=1))
+        for ct in ["h2pk", "h2alpn"]:
+            # warm connection (server SETTINGS already read): real multiplexing of two requests with one fault anywhere
+            out.append(S(ct, ["req:a:w", "post:a", "req:a"], max_connections=2, faults=1, fault_set="all", early=quick is False))
+        for ct in (["h2pk"] if quick else ["h2pk", "h2alpn"]):
+            ids = [0, 1, 3, 5, 2 ** 31 - 1]
+            out.append(S(ct, ["req:a"], max_connections=2, h2script={"goaway": ids}, early=False))
+            out.append(S(ct, ["req:a", "req:a"], max_connections=2, h2script={"goaway": ids}, early=False))
+            out.append(S(ct, ["post:a", "req:a"], max_connections=2, h2script={"goaway": [1, 3], "rst": 1}, early=False))
+            if not quick:
+                out.append(S(ct, ["req:a", "req:a", "req:a:late"], max_connections=2, h2script={"goaway": ids}, early=False))
+                out.append(S(ct, ["req:a", "req:a"], max_connections=2, h2script={"goaway": ids, "frag": 2}))
     return out
 
 
@@ -380,7 +598,11 @@ def run_for(pid, tier, seed, workers, only):
     def on_result(spec, st):
         per.append({"scenario": spec[2][:200], "states": st.states, "executions": st.evaluations, "exhaustive": st.exhaustive,
                     "caps": st.caps, "outcomes": len(st.outcomes)})
-    st = engine.explore_many(specs, workers=workers, bound=None, seed=seed, max_violations=60,
+    def weight(spec):
+        d = json.loads(spec[2])
+        n = sum(1 for c in d["callers"] if ":w" not in c)
+        return n ** 3 * (4 if d.get("h2script") else 1) * (2 if d.get("early", True) else 1) * (3 if d.get("cancels") else 1) * (2 if "h2" in d["ct"] else 1)
+    st = engine.explore_many(specs, workers=workers, weight=weight, bound=None, seed=seed, max_violations=60,
                              max_execs=60000 if tier == "quick" else 600000, max_seconds=120 if tier == "quick" else 900, on_result=on_result)
     info = {"scenarios": len(specs), "executions": st.evaluations, "states": st.states, "transitions": st.transitions,
             "exhaustive_scenarios": sum(1 for p in per if p["exhaustive"]), "capped_scenarios": [p for p in per if not p["exhaustive"]][:10],
